@@ -1,14 +1,13 @@
 CONSTANTS
   NP = 2
-  NChunks <- Chunks21
+  NChunks <- Chunks22
   MaxCtl = 3
   Wait = TRUE
   StopWakes = TRUE
   JoinAll = TRUE
-  Faults = FALSE
+  Faults = TRUE
   RunFinally = TRUE
-INIT Init
-NEXT CNext
+SPECIFICATION LiveSpec
 INVARIANT InOrderOnce
 INVARIANT Complete
 INVARIANT NoWriteWhenNotOpen
@@ -18,4 +17,5 @@ INVARIANT TerminatedOnce
 INVARIANT NoThreadAlive
 INVARIANT PlayRaisesAfterClose
 INVARIANT WaitsForAll
+PROPERTY CloseReturns
 CHECK_DEADLOCK FALSE
